@@ -149,12 +149,21 @@ def isRRset : List RR → Bool
   | [] => false
   | h :: t => t.all fun r => r.rtype == h.rtype && r.cls == h.cls && r.owner == h.owner && r.spell == h.spell
 
+/-- `wildcardExpanded(owner, labels)` of verify.go: the signature counts fewer labels than the owner
+has, the leading `*` of a wildcard owner itself not counted. -/
+def sigExpands (owner : Name) (labels : Nat) : Bool :=
+  decide (labels < (if owner.getLast? == some "*" then owner.length - 1 else owner.length))
+
+/-- a denial record is never the product of wildcard expansion (a691674). -/
+def expandedDenial (s : Sig) (owner : Name) : Bool :=
+  (s.covered == 47 || s.covered == 50) && sigExpands owner s.labels
+
 /-- `signatureMatchesRRset`. -/
 def sigMatchesRRset (s : Sig) (set : List RR) : Bool :=
   match set with
   | [] => false
   | h :: _ =>
-    isRRset set && h.cls == s.cls && h.rtype == s.covered && decide (s.labels ≤ h.owner.length) &&
+    !expandedDenial s h.owner && isRRset set && h.cls == s.cls && h.rtype == s.covered && decide (s.labels ≤ h.owner.length) &&
       h.owner == s.owner && nameInZone h.owner s.signer
 
 /-- `verifyOneSigWithWork` (keys well formed: a failed public-key operation is `dns.ErrSig`). -/
@@ -487,6 +496,22 @@ def verifyNODATA3 (isDS : Bool) (v : N3View) : N3Res :=
       | none, _ => .noCover
       | some _, none => .noCover
       | some oo, some (ty, _) => if ty then .typeExists else if oo then .insecure else .secure
+
+/-- `VerifyDelegationForZoneWithWork`: the NSEC3 proof of an INSECURE delegation.  `exact` here is
+(NS set, DS set, SOA set) of the record matching the delegation name. -/
+def verifyDelegation3 (v : N3View) : N3Res :=
+  match v.exact with
+  | some (ns, ds, soa) =>
+    if !ns then .noCover          -- (reported as ErrNSECNSMissing; the driver renders it)
+    else if ds || soa then .badDelegation
+    else .insecure
+  | none =>
+    if !v.ceFound then .noCover
+    else if v.ceBad then .badDelegation
+    else match v.cover with
+      | none => .noCover
+      | some false => .optOut
+      | some true => .insecure
 
 /-- `insecureProofName(q)` (e583743): the name whose position decides whether an unsigned response
 may be excused by an insecure delegation — for a DS question the name one label above its owner. -/
